@@ -1,5 +1,6 @@
 import os
 from abc import ABCMeta
+from fractions import Fraction
 
 from rtamt.semantics.abstract_discrete_time_online_interpreter import AbstractDiscreteTimeOnlineInterpreter
 from rtamt.semantics.abstract_dense_time_online_interpreter import AbstractDenseTimeOnlineInterpreter
@@ -10,6 +11,7 @@ from rtamt.semantics.discrete_time_interpreter import DiscreteTimeInterpreter
 
 from rtamt.exception.exception import RTAMTException
 
+from rtamt.pastifier.stl.pastifier import StlPastifier
 from rtamt.syntax.node.ltl.next import Next
 from rtamt.syntax.node.ltl.strong_next import StrongNext
 
@@ -314,6 +316,10 @@ class AbstractOnlineSpecification(AbstractSpecification):
                 if isinstance(node, (Next, StrongNext)):
                     raise RTAMTException('Next operator not implemented in STL dense-time monitor.')
                 nodes.extend(node.children)
+        if isinstance(self.online_interpreter, DiscreteTimeInterpreter) and isinstance(self.pastifier, StlPastifier):
+            # the STL pastifier works in the default unit of the specification; next steps by one sample
+            interpreter = self.online_interpreter
+            self.pastifier.sample_step = Fraction(interpreter.sampling_period) * self.ast.U[interpreter.sampling_period_unit] / self.ast.U[self.ast.unit]
         self.ast = self.pastifier.pastify(self.ast)
 
     # forwarding to interpreter
